@@ -208,10 +208,51 @@ fn receipts_oracle(out: &mut Out, rng: &mut Rng, count: usize) {
     }
 }
 
+/// Fill a ReceiptsCtx up to its limit, keep pushing (rejected receipts), then append the
+/// epilogue the VM appends (panic + script result); the root must be the MTH of exactly the
+/// receipts the context holds, after every phase.
+fn receipts_limit_oracle(out: &mut Out, rng: &mut Rng) {
+    use fuel_tx::{Receipt, ScriptExecutionResult};
+    use fuel_types::canonical::Serialize;
+    use fuel_vm::interpreter::ReceiptsCtx;
+    out.oracle_evaluations += 1;
+    let id = fuel_types::ContractId::from(rng.bytes32());
+    let res = guarded(|| {
+        let mut ctx = ReceiptsCtx::default();
+        let mut bad: Option<String> = None;
+        let mut rejected = 0usize;
+        let check = |ctx: &ReceiptsCtx, phase: &str| -> Option<String> {
+            let leaves: Vec<Vec<u8>> = ctx.as_ref().iter().map(|r| r.to_bytes()).collect();
+            if *ctx.root() != mth(&leaves) { Some(format!("{phase}: root != MTH of the {} held receipts", leaves.len())) } else { None }
+        };
+        for k in 0..70_000u64 {
+            let r = Receipt::log(id, k, 1, 2, 3, 4, 5);
+            if ctx.push(r).is_err() { rejected += 1; }
+            if k == 65_530 || k == 65_533 || k == 65_534 || k == 65_540 {
+                if bad.is_none() { bad = check(&ctx, &format!("after {} pushes", k + 1)); }
+            }
+        }
+        if bad.is_none() { bad = check(&ctx, "after rejected pushes"); }
+        let _ = ctx.push(Receipt::panic(id, fuel_asm::PanicInstruction::error(fuel_asm::PanicReason::TooManyReceipts, 0), 0, 0));
+        let _ = ctx.push(Receipt::script_result(ScriptExecutionResult::Panic, 7));
+        if bad.is_none() { bad = check(&ctx, "after epilogue"); }
+        (bad, rejected, ctx.as_ref().len())
+    });
+    match res {
+        Ok((None, rejected, len)) => { out.count("receipts_limit_ok"); out.notes.push(format!("receipts limit: {len} held, {rejected} rejected")); }
+        Ok((Some(b), _, _)) => out.oracle_fail("receipts-root-at-limit", &b, json!({"kind":"receipts-limit"})),
+        Err(p) => out.oracle_fail("panic", &format!("receipts limit scenario panicked: {p}"), json!({"kind":"receipts-limit"})),
+    }
+}
+
 fn run_c09(args: &Args, out: &mut Out) {
     let mut rng = Rng::new(args.seed);
     if let Some(p) = &args.replay {
         let v = read_replay(p);
+        if v["kind"] == "receipts-limit" {
+            receipts_limit_oracle(out, &mut rng);
+            return;
+        }
         let leaves: Vec<Vec<u8>> = v["leaves"].as_array().unwrap().iter().map(|x| hex::decode(x.as_str().unwrap()).unwrap()).collect();
         c09_case(out, leaves, "replay");
         return;
@@ -264,6 +305,7 @@ fn run_c09(args: &Args, out: &mut Out) {
     for c in [0usize, 1, 2, 3, 7, 8, 9, 100] {
         receipts_oracle(out, &mut rng, c);
     }
+    receipts_limit_oracle(out, &mut rng);
 }
 
 
@@ -421,6 +463,23 @@ fn run_c10(args: &Args, out: &mut Out) {
             _ => { idx = rng.below(2 * n as u64 + 1); cnt = rng.below(2 * n as u64 + 2); "random-index-count".into() }
         };
         c10_verify_case(out, r, &data, &proof, idx, cnt, &format!("mut-{class}"));
+    }
+    // relabelling: an honest proof for (i, n) presented under every other (i', n') label
+    let rl_max = args.scale(9, 24);
+    for n in 1..=rl_max {
+        let leaves: Vec<Vec<u8>> = (0..n).map(|_| rng.bytes_upto(3)).collect();
+        let hs: Vec<[u8; 32]> = leaves.iter().map(|l| sha(&[&[0u8], l])).collect();
+        let root = mth(&leaves);
+        for i in 0..n {
+            let proof = rfc_path(i, &hs);
+            for n2 in 1..=(n as u64 + 3) {
+                for i2 in 0..n2 {
+                    if (i2, n2) == (i as u64, n as u64) { continue; }
+                    // keep the volume down: only labels whose own path is not longer than the proof
+                    c10_verify_case(out, root, &leaves[i], &proof, i2, n2, "mut-relabel");
+                }
+            }
+        }
     }
     // boundary tuples: count 0/1 with non-empty proof, huge counts with short proofs
     let z = [0u8; 32];
@@ -607,6 +666,28 @@ fn run_c11(args: &Args, out: &mut Out) {
     c11_case(out, vec![d(1), d(2), d(3), Op::Reset, Op::Prove(0)], "corpus-reset-prove");
     c11_case(out, vec![d(1), d(2), d(3), Op::Reset, d(4), d(5), Op::Root, Op::Prove(0), Op::Prove(1), Op::Prove(3)], "corpus-reset-push-prove");
     c11_case(out, vec![d(1), d(2), d(3), d(4), d(5), Op::Load(3), Op::Root, Op::Prove(2), Op::Prove(3), d(9), Op::Root, Op::Prove(3)], "corpus-load");
+    // structured sweeps: a longer history, then reset / reload at a shorter count, refill with
+    // DIFFERENT data up to every shorter count, and request every proof (stale nodes of the longer
+    // history are still in storage at the positions the shorter tree computes on the fly)
+    let lmax = args.scale(11, 40) as u64;
+    for long in 1..=lmax {
+        for short in 1..=long {
+            if !args.thorough() && (long + short) % 3 != 0 && long > 8 { continue; }
+            let mut ops: Vec<Op> = (0..long).map(|x| Op::Push(vec![x as u8, 1])).collect();
+            ops.push(Op::Reset);
+            ops.extend((0..short).map(|x| Op::Push(vec![x as u8, 2])));
+            ops.push(Op::Root);
+            ops.extend((0..=short).map(Op::Prove));
+            c11_case(out, ops, "sweep-reset-refill");
+            let mut ops: Vec<Op> = (0..long).map(|x| Op::Push(vec![x as u8, 3])).collect();
+            ops.push(Op::Load(short));
+            ops.push(Op::Root);
+            ops.extend((0..=short).map(Op::Prove));
+            ops.push(Op::Push(vec![9, 9]));
+            ops.extend((0..=short + 1).map(Op::Prove));
+            c11_case(out, ops, "sweep-reload");
+        }
+    }
     let n = args.scale(150, 5000);
     for k in 0..n {
         let ops = gen_history(&mut rng, if k % 5 == 0 { 40 } else { 14 }, k % 3 != 0);
